@@ -91,7 +91,21 @@ def body_drains(bp, reg):
     return bool(un), fr
 
 
-def drains(events, reg):
+def _pending_arm(bp, lp, reg):
+    """Is this iteration taken under 'the element's alarm is not None' (a request of this very connection)?"""
+    for c in bp.conds[len(lp.conds):]:
+        t, pol = c.term, c.pol
+        while isinstance(t, tuple) and t and t[0] == "not":
+            t, pol = t[1], not pol
+        if isinstance(t, tuple) and t[0] == "nonnull" and isinstance(t[1], tuple) and t[1][0] == "attr" and t[1][2] == "alarm" \
+                and elem_of(t[1][1], reg) and pol is True:
+            return True
+        if isinstance(t, tuple) and t[0] == "attr" and t[2] == "alarm" and elem_of(t[1], reg) and pol is True:
+            return True
+    return False
+
+
+def drains(events, reg, skip_pending=False):
     """Every element of reg is removed and failed: a loop over reg whose every normally-ending iteration unregisters and
     either fires errback or skips the fire only under an 'already called' test.  Returns (ok, fire events)."""
     for lp in loops_over(events, reg):
@@ -99,10 +113,16 @@ def drains(events, reg):
         fires = []
         if lp.a.get("lkind") == "while" and not _emptiness_test(lp.a.get("test"), reg):
             continue       # a while loop drains the registry only if it runs until the registry is empty
+        pre_ok = skip_pending is True or (skip_pending == "after-cancel" and cancels(events[:events.index(lp)], reg)[0])
         for bp in lp.a["body"]:
             if bp.exit_kind() not in ("fall", "continue"):
                 ok = False
                 continue
+            if _pending_arm(bp, lp, reg):
+                # entries with a live alarm: either impossible here (alarms were just cancelled) or requests of this very
+                # connection, which a purge must leave alone; such an iteration must not touch the entry at all
+                if pre_ok and not any(e.kind in ("UNREG", "FIRE") for e in bp.walk()):
+                    continue
             un, fr = body_drains(bp, reg)
             if not un:
                 ok = False
@@ -149,6 +169,8 @@ def rearms(events, reg):
             if bp.exit_kind() not in ("fall", "continue"):
                 ok = False
                 continue
+            if _pending_arm(bp, lp, reg) and not any(e.kind in ("WRITE", "ARM") for e in bp.walk()):
+                continue       # a request of this very connection: already on its way, the resume leaves it alone
             arm, wr = body_rearms(bp, reg)
             if len(wr) != 1 or len(arm) > 1:
                 ok = False
@@ -214,12 +236,12 @@ class Lifecycle:
 
     def loss_drains(self, reg):
         """On every clean-session loss path (and every path that does not test the flag) reg is drained."""
-        return self.all_(self.loss_clean + self.loss_unsplit, lambda tr: drains(tr.path.events, reg)[0])
+        return self.all_(self.loss_clean + self.loss_unsplit, lambda tr: drains(tr.path.events, reg, "after-cancel")[0])
 
     def loss_keeps(self, reg):
         """Some non-clean loss path leaves elements in reg."""
         trs = self.loss_persist + self.loss_unsplit
-        return any(not drains(tr.path.events, reg)[0] for tr in trs) if trs else False
+        return any(not drains(tr.path.events, reg, "after-cancel")[0] for tr in trs) if trs else False
 
     def loss_cancels(self, reg):
         return self.all_(self.loss, lambda tr: tr.path.exit_kind() == "raise" or cancels(tr.path.events, reg)[0])
@@ -228,7 +250,7 @@ class Lifecycle:
         return self.all_(self.ack_persist + self.ack_unsplit, lambda tr: rearms(tr.path.events, reg)[0])
 
     def purge_drains(self, reg):
-        return self.all_(self.ack_clean + self.ack_unsplit, lambda tr: drains(tr.path.events, reg)[0])
+        return self.all_(self.ack_clean + self.ack_unsplit, lambda tr: drains(tr.path.events, reg, True)[0])
 
     def reg_in(self, reg, slot):
         """Can an element enter `reg` through an operation or packet handled while self.state is `slot`?"""
